@@ -297,6 +297,9 @@ func (k *Kernel) Run(hook func()) string {
 		}
 		if hook != nil {
 			hook()
+			// the hook may have started controller goroutines: let them reach their first park
+			// before the parked set is read (otherwise the set depends on real scheduling)
+			synctest.Wait()
 		}
 		if k.stopRun {
 			return k.endReason
